@@ -63,6 +63,9 @@ pub struct GenOpts {
     /// chance (percent) that a thread executes the tail of its list from a destructor while it
     /// unwinds from a panic of its own
     pub in_unwind_pct: u64,
+    /// chance (percent) that a range ends at or just below usize::MAX (short ranges: the known
+    /// finding K1 needs more than 2^62 elements)
+    pub high_range_pct: u64,
 }
 
 impl GenOpts {
@@ -105,6 +108,7 @@ impl GenOpts {
             huge_iter_oneshot_pct: 0,
             closure_panic_pct: 0,
             in_unwind_pct: 0,
+            high_range_pct: 0,
         }
     }
 }
@@ -141,6 +145,7 @@ pub fn opts_for(prop: &str) -> GenOpts {
     let mut o = GenOpts::base();
     match prop {
         "C01" => {
+            o.high_range_pct = 10;
             // wrapped iterators whose exact size hint is wrong (F7c / F7d)
             o.short_hint_pct = 8;
             o.in_unwind_pct = 5;
@@ -154,6 +159,7 @@ pub fn opts_for(prop: &str) -> GenOpts {
             o.nonfused_pct = 15;
         }
         "C02" => {
+            o.high_range_pct = 10;
             // wrapped iterators whose exact size hint is wrong (F7c / F7d)
             o.short_hint_pct = 15;
             o.in_unwind_pct = 4;
@@ -174,6 +180,7 @@ pub fn opts_for(prop: &str) -> GenOpts {
             o.wrapper_nth_pct = 35;
         }
         "C03" => {
+            o.high_range_pct = 10;
             o.in_unwind_pct = 4;
             // operation classes that do not concern this property directly, at a low weight:
             // what they do to the shared state must not disturb what the property states
@@ -192,6 +199,7 @@ pub fn opts_for(prop: &str) -> GenOpts {
             o.w_skip = 4;
         }
         "C04" => {
+            o.high_range_pct = 10;
             o.in_unwind_pct = 4;
             // operation classes that do not concern this property directly, at a low weight:
             // what they do to the shared state must not disturb what the property states
@@ -212,6 +220,7 @@ pub fn opts_for(prop: &str) -> GenOpts {
             o.huge_pct = 6;
         }
         "C05" => {
+            o.high_range_pct = 10;
             o.in_unwind_pct = 5;
             // operation classes that do not concern this property directly, at a low weight:
             // what they do to the shared state must not disturb what the property states
@@ -256,6 +265,7 @@ pub fn opts_for(prop: &str) -> GenOpts {
             o.stale_pct = 25;
         }
         "C08" => {
+            o.zero_pct = 3;
             // wrapped iterators whose exact size hint is wrong (F7c / F7d)
             o.short_hint_pct = 8;
             o.in_unwind_pct = 5;
@@ -276,6 +286,7 @@ pub fn opts_for(prop: &str) -> GenOpts {
             o.drop_panic_pct = 8;
         }
         "C09" => {
+            o.zero_pct = 3;
             // wrapped iterators whose exact size hint is wrong (F7c / F7d)
             o.short_hint_pct = 8;
             o.in_unwind_pct = 4;
@@ -294,6 +305,8 @@ pub fn opts_for(prop: &str) -> GenOpts {
             o.pre_pct = 20;
         }
         "C10" => {
+            o.high_range_pct = 10;
+            o.zero_pct = 3;
             // wrapped iterators whose exact size hint is wrong (F7c / F7d)
             o.short_hint_pct = 8;
             o.in_unwind_pct = 4;
@@ -310,6 +323,8 @@ pub fn opts_for(prop: &str) -> GenOpts {
             o.drain = false;
         }
         "C11" => {
+            o.high_range_pct = 10;
+            o.zero_pct = 3;
             o.in_unwind_pct = 4;
             // operation classes that do not concern this property directly, at a low weight:
             // what they do to the shared state must not disturb what the property states
@@ -330,6 +345,7 @@ pub fn opts_for(prop: &str) -> GenOpts {
             o.kinds = kinds;
         }
         "C12" => {
+            o.high_range_pct = 10;
             // wrapped iterators whose exact size hint is wrong (F7c / F7d)
             o.short_hint_pct = 8;
             o.in_unwind_pct = 5;
@@ -373,6 +389,7 @@ pub fn opts_for(prop: &str) -> GenOpts {
             o.zero_pct = 6;
         }
         "C19" => {
+            o.zero_pct = 3;
             // "take the rest" chunk sizes at the edge of usize (known-size kinds only)
             o.huge_pct = 4;
             o.kinds = vec![
@@ -394,6 +411,7 @@ pub fn opts_for(prop: &str) -> GenOpts {
             o.multi_iter = true;
         }
         "C15" => {
+            o.zero_pct = 3;
             // wrapped iterators whose exact size hint is wrong (F7c / F7d)
             o.short_hint_pct = 8;
             o.in_unwind_pct = 5;
@@ -418,6 +436,7 @@ pub fn opts_for(prop: &str) -> GenOpts {
             o.closure_panic_pct = 10;
         }
         "C17" => {
+            o.high_range_pct = 10;
             o.in_unwind_pct = 4;
             // operation classes that do not concern this property directly, at a low weight:
             // what they do to the shared state must not disturb what the property states
@@ -742,7 +761,11 @@ pub fn generate_with(prop: &str, o: &GenOpts, base_seed: u64, index: u64) -> Run
         }
     }
     let hint = *rng.pick(&[Hint::Exact, Hint::Exact, Hint::Inexact, Hint::Unbounded]);
-    let start = *rng.pick(&[0usize, 0, 3, 1000]);
+    let mut start = *rng.pick(&[0usize, 0, 3, 1000]);
+    if kind.is_range() && o.high_range_pct > 0 && rng.chance(o.high_range_pct, 100) {
+        // values at the top of usize: `start + index + chunk size` must not be computed carelessly
+        start = usize::MAX - len - *rng.pick(&[0usize, 1, 5]);
+    }
     let nthreads = rng.range(o.min_threads, o.max_threads);
     // sizes at the edge of usize only where the length is known (K2 covers the unknown-size case)
     let huge_pct = if kind.known_size() { o.huge_pct } else { 0 };
